@@ -111,6 +111,10 @@ func attributeValueClass(c context) string {
 		s += "AmbiguousPrefix"
 	case urlPrefixLeavesSchemeOpen(sc, c.attr.value):
 		s += "UnsafePrefix"
+		if c.attr.dynamicStart {
+			// Static text of the called template could still complete a scheme.
+			s += "AfterAction"
+		}
 	case strings.ContainsAny(html.UnescapeString(c.attr.value), "#?"):
 		s += "Query"
 	default:
@@ -125,6 +129,11 @@ func sanitizersForAttributeValue(c context) ([]string, error) {
 	sc0, err := sanitizationContextForAttributeValue(c)
 	if err != nil {
 		return nil, err
+	}
+	if c.attr.ambiguousValue && (sc0.isEnum() || sc0 == sanitizationContextURLSet || sc0.isURLorTrustedResourceURL()) {
+		// The static text that precedes the action depends on a conditional branch, e.g.
+		// `<a href="{{if .C}}{{else}}java{{end}}{{.X}}">`: it may be empty on one path only.
+		return nil, fmt.Errorf("actions must not occur after an ambiguous URL prefix in the %q attribute value context of a %q element", c.attr.name, c.element.name)
 	}
 	if sc0.isEnum() && (c.attr.value != "" || c.attr.dynamic) {
 		return nil, fmt.Errorf("partial substitutions are disallowed in the %q attribute value context of a %q element", c.attr.name, c.element.name)
